@@ -20,6 +20,7 @@ import (
 	"github.com/gokrazy/rsync/rsynccmd"
 	"github.com/gokrazy/rsync/rsyncd"
 	"github.com/gokrazy/rsync/verifharness/fstree"
+	"github.com/gokrazy/rsync/verifharness/wirekit"
 	"github.com/gokrazy/rsync/verifharness/xport"
 )
 
@@ -41,6 +42,7 @@ type syncScn struct {
 	Chunk    int             `json:"chunk"`          // lib: reads return at most this many bytes (0: unlimited)
 	Jitter   int64           `json:"jitter"`         // lib: seed of random yields / micro-sleeps in transport operations (0: none)
 	Flip     int64           `json:"flip"`           // lib: flip one bit of the sender->receiver stream at this offset (0: none)
+	Wire     bool            `json:"wire"`           // lib (pull): record the action-level trace of the session (SessionWire.tla)
 	Echo     json.RawMessage `json:"echo,omitempty"` // passed through (opts, rules, ... for the trace spec)
 }
 
@@ -64,6 +66,8 @@ type syncObs struct {
 	Resent2  []string        `json:"resent2"`  // regular files replaced (new inode) by the second run
 	Echo     json.RawMessage `json:"echo,omitempty"`
 	Log      string          `json:"log,omitempty"`
+	Wire     *wireObs        `json:"wire,omitempty"`
+	Retire   bool            `json:"retire_worker,omitempty"` // a hung session's goroutines are still parked in this worker
 }
 
 func init() { handlers["sync"] = syncHandler }
@@ -255,7 +259,14 @@ func syncHandler(w *workerCtx, line []byte) (any, error) {
 				rerr = runCmd(logb, append(append([]string{}, s.Flags...), srcArg, "rsync://127.0.0.1:"+port+"/dst/"))
 			}
 		case "lib", "libpush":
-			rerr = runLib(logb, &s, srcArg, ddir)
+			var rec *wireRec
+			if s.Wire && s.Arr == "lib" {
+				rec = newWireRec()
+			}
+			rerr = runLib(logb, &s, srcArg, ddir, rec)
+			if rec != nil && rerr == nil {
+				obs.Wire = rec.analyse(wirekit.ListOpts{})
+			}
 		default:
 			return "harness", "unknown arrangement " + s.Arr
 		}
@@ -314,6 +325,7 @@ func syncHandler(w *workerCtx, line []byte) (any, error) {
 	if obs.Result != "ok" {
 		obs.Log = string(logb.b)
 	}
+	obs.Retire = strings.HasPrefix(obs.Err, "HUNG")
 	fstree.MakeWritable(ddir)
 	fstree.MakeWritable(sdir)
 	return obs, nil
@@ -332,8 +344,8 @@ func runCmd(logw *capBuf, args []string) error {
 	select {
 	case err := <-done:
 		return err
-	case <-time.After(60 * time.Second):
-		return fmt.Errorf("HUNG: rsync %s did not return within 60 s", strings.Join(args, " "))
+	case <-idleAfter(10 * time.Second):
+		return fmt.Errorf("HUNG: rsync %s did not return and every goroutine of the session was parked for 10 s", strings.Join(args, " "))
 	}
 }
 
@@ -364,7 +376,7 @@ func parkedSummary(dump string) string {
 
 // runLib: the library client over an arbitrary stream: rsyncclient.Run on one
 // end, the server in command mode (HandleConnArgs, implicit module) on the other.
-func runLib(logw *capBuf, s *syncScn, srcArg, ddir string) error {
+func runLib(logw *capBuf, s *syncScn, srcArg, ddir string, rec *wireRec) error {
 	var copts []rsyncclient.Option
 	copts = append(copts, rsyncclient.DontRestrict(), rsyncclient.WithStderr(logw))
 	push := s.Arr == "libpush"
@@ -391,7 +403,14 @@ func runLib(logw *capBuf, s *syncScn, srcArg, ddir string) error {
 		return c
 	}
 	capUp, capDown = conv(capUp), conv(capDown)
-	a, b := xport.Conn(capUp, capDown, nil)
+	var xlog *xport.Log
+	if rec != nil {
+		xlog = rec.log
+	}
+	a, b := xport.Conn(capUp, capDown, xlog)
+	if rec != nil {
+		rec.attach(a.Out, a.In)
+	}
 	for _, p := range []*xport.Pipe{a.In, a.Out} {
 		p.MaxRead = s.Chunk
 		if s.Jitter != 0 {
@@ -451,7 +470,8 @@ func runLib(logw *capBuf, s *syncScn, srcArg, ddir string) error {
 		_, _, _, p2 := a.Out.State()
 		return p1 + p2
 	}
-	last, lastChange := progress(), time.Now()
+	last := progress()
+	var idle idleMeter
 	for i := 0; i < 2; {
 		select {
 		case cerr = <-cdone:
@@ -461,17 +481,19 @@ func runLib(logw *capBuf, s *syncScn, srcArg, ddir string) error {
 			}
 		case serr = <-sdone:
 			i++
-		case <-time.After(100 * time.Millisecond):
+		case <-time.After(idleTick):
+			quiet := idle.sample()
 			if p := progress(); p != last {
-				last, lastChange = p, time.Now()
-			} else if time.Since(lastChange) > 3*time.Second {
+				last = p
+				idle.n = 0
+			} else if quiet >= 3*time.Second {
 				buf := make([]byte, 1<<20)
 				n := runtime.Stack(buf, true)
 				dump := string(buf[:n])
 				r1, w1, b1, _ := a.In.State()
 				r2, w2, b2, _ := a.Out.State()
 				a.Close()
-				return fmt.Errorf("HUNG: no transport progress for 3 s (down: %d readers %d writers %d buffered; up: %d readers %d writers %d buffered)\n%s",
+				return fmt.Errorf("HUNG: no transport progress and every goroutine of the session parked for 3 s (down: %d readers %d writers %d buffered; up: %d readers %d writers %d buffered)\n%s",
 					r1, w1, b1, r2, w2, b2, parkedSummary(dump))
 			}
 		}
